@@ -46,7 +46,7 @@ ASSUMPTIONS = ['Series form goes through pdextract, which only takes a seed: '
 F_ORDER_SAMPLE = 'F-rexpy-sample-depends-on-order'
 
 VARIANTS = ['asis', 'perm', 'dict', 'repeat', 'series', 'dict0',
-            'series-cat', 'bytes', 'bytes-dict']
+            'series-cat', 'bytes', 'bytes-dict', 'raises']
 
 
 def set_strategy(tier):
@@ -316,6 +316,19 @@ def run(case, ctx):
         variant = step['variant']
         kept = G.kept_examples(c)
         distinct = sorted(set(kept))
+        if variant == 'raises':
+            # a seeded call that fails (byte strings without an encoding):
+            # the caller's random generator is the caller's all the same
+            before = random.getstate()
+            okx, rx = call(rexpy.extract, [b'ab', b'cd', None],
+                           seed=seed if seed is not None else 3)
+            out.label('variant:raises')
+            if random.getstate() != before:
+                out.violate('rng-state-preserved', 'after-exception',
+                            'step %d: random.getstate() changed across a '
+                            'seeded extract() that raised %s'
+                            % (n, 'nothing' if okx else rx.type))
+            continue
         if variant == 'repeat' and (
                 s['opts'].get('max_patterns') is not None
                 or s['opts'].get('min_strings_per_pattern', 1) > 1):
